@@ -104,8 +104,9 @@ def judge(rep, hist, text, res, second):
             return rep.violation("%s/%s" % (kind, o.get("pos", k)), "operation %d %s of\n%s--- %s" % (i, json.dumps(o), text, desc), dict(rec, step=i), dict(feat, fail=kind))
         if k == "use":
             if o["pos"] == "nonfirst":
-                r = [x for x in logs if x.get("h") == "pa" and "NF%d" % i in (x.get("argv") or [])]
-                # (vpa itself may be an alias at this point: only the words from the marker on are compared)
+                r = [x for x in logs if x.get("h") in ("pa", "mk") and "NF%d" % i in (x.get("argv") or [])]
+                # (vpa itself may be an alias at this point - of another vpa call or of the marker helper vmk: only the words
+                # from the marker on are compared, whichever helper received them)
                 if len(r) != 1 or r[0]["argv"][r[0]["argv"].index("NF%d" % i):] != ["NF%d" % i, o["n"]]:
                     return bad("nonfirst-replaced", "a non-first word was touched: argv %s" % [x.get("argv") for x in r])
                 continue
